@@ -101,8 +101,13 @@ impl From<Evaluated<'_>> for Value {
 }
 
 pub fn to_number_value(number: f64) -> Result<Value, Error> {
-    if number.fract() == 0.0 {
+    // 2^63 and 2^64 as floats: the casts below saturate outside these bounds
+    const I64_LIMIT: f64 = 9223372036854775808.0;
+    const U64_LIMIT: f64 = 18446744073709551616.0;
+    if number.fract() == 0.0 && number >= -I64_LIMIT && number < I64_LIMIT {
         Ok(Value::Number(Number::from(number as i64)))
+    } else if number.fract() == 0.0 && number >= I64_LIMIT && number < U64_LIMIT {
+        Ok(Value::Number(Number::from(number as u64)))
     } else {
         Number::from_f64(number)
             .ok_or_else(|| {
